@@ -253,22 +253,24 @@ Theorem C19_sgr_roundtrip_transformed : forall opp adj rules s d a t a',
 Proof. exact sgr_roundtrip_transformed. Qed.
 Print Assumptions C19_sgr_roundtrip_transformed.
 
-(* Totality: transformations without AdjustBrightness and with well-formed
-   default colours never fail on in-domain attributes ... *)
-Theorem C19_transform_total : forall opp adj, kernel_ok opp -> kernel_total opp -> kernel_ok adj ->
+(* Totality: with valid brightness bounds and parseable default colours no
+   transformation fails on in-domain (e.g. resolved) attributes. *)
+Theorem C19_transform_total : forall opp adj,
+  kernel_ok opp -> kernel_total opp -> kernel_ok adj -> kernel_total adj ->
   forall t a, well_formed t = true -> rt_dom a -> exists a', transform opp adj t a = Ok a'.
 Proof. exact transform_total. Qed.
 Print Assumptions C19_transform_total.
 
-(* ... but AdjustBrightnessStyleTransformation raises ValueError on the resolved
-   colour "default" (style "fg:default"): finding C19-F2. *)
-Theorem C19_transform_total_refuted :
+(* Before the fix 65ab1ba AdjustBrightnessStyleTransformation raised ValueError
+   on the resolved colour "default" (finding C19-F2, repaired). *)
+Theorem C19_adjust_pinned_refuted :
   exists rules s a,
     style_get rules s DEFAULT_ATTRS = Ok a /\
     kernel_ok const_kernel /\ kernel_total const_kernel /\
-    transform const_kernel const_kernel (TAdjust true false) a = Err 1.
-Proof. exact transform_total_refuted. Qed.
-Print Assumptions C19_transform_total_refuted.
+    adjust_brightness_pinned const_kernel true false a = Err 1 /\
+    adjust_brightness const_kernel true false a = Ok a.
+Proof. exact adjust_pinned_refuted. Qed.
+Print Assumptions C19_adjust_pinned_refuted.
 
 (* ---- caches ------------------------------------------------------------- *)
 (* _EscapeCodeCache (one per depth), _16ColorCache (fg, bg) and _256ColorCache
